@@ -53,6 +53,7 @@ package crlreader
 //@   ensures processorOK(processor)
 //@   assigns M.map[string][]uint8, X.ldbhas, X.fs, X.stream, X.spos, X.hacc, X.hkind, E.uint8, E.any
 //@   ensures[C06] consumes_exactly_the_list: err == nil && old(1 + $sdata[reader.Reader][$spos[reader.Reader] + 1] % 16) <= 5 ==> $spos[reader.Reader] == old($spos[reader.Reader] + 1 + derLenSizeS(reader.Reader, 1) + derLenS(reader.Reader, 1))
+//@   ensures[C01,C06] the_entry_loop_ends_only_where_no_sequence_follows: err == nil ==> $sdata[reader.Reader][$spos[reader.Reader]] != 48
 //@   ensures[C01,C06] insert_error_propagates: called(CRLProcessor.InsertRevokedCertificate#1) && res(CRLProcessor.InsertRevokedCertificate#1) != nil ==> err != nil
 //@   ensures[C01,C06] read_error_propagates: called(ReadStruct#1) && res(ReadStruct#1) != nil ==> err != nil
 //@   loop 1 assigns M.map[string][]uint8, X., E.uint8, E.any, H.pkix.RevokedCertificate, H.crlreader.CRLEntry, H.asn1parser.TagLength, H.asn1parser.Length, H.cryptobyte/asn1.Tag, H.asn1.Tag, H.big.Int
